@@ -90,7 +90,14 @@ impl DateTime {
         self.balance_month();
         while self.day > 366 {
             //dbg!(self.day);
-            self.day -= year_len_days(self.year);
+            // A one-year jump crosses 29 February of this year only when starting in
+            // January or February.  From March on, it crosses next year's February.
+            let feb_year = if self.month > 2 {
+                self.year + 1
+            } else {
+                self.year
+            };
+            self.day -= year_len_days(feb_year);
             //dbg!(self.day);
             //dbg!(self.year);
             self.year += 1;
